@@ -743,6 +743,30 @@ def do_directions(part, start, end, counter):
         elem = (direction.end.t, None, e0)
         result.append(elem)
 
+    # ending pedals (a pedal may end in a later measure than it starts in)
+    pedals = part.iter_all(
+        score.PedalDirection,
+        start.next,
+        end.next,
+        include_subclasses=True,
+        mode="ending",
+    )
+
+    for direction in pedals:
+        e0e = etree.Element("direction", placement="below")
+        e1e = etree.SubElement(e0e, "direction-type")
+        if isinstance(direction, score.SustainPedalDirection):
+            pedal_kwargs = {}
+            if direction.line:
+                pedal_kwargs["line"] = "yes"
+            else:
+                pedal_kwargs["sign"] = "yes"
+            etree.SubElement(e1e, "pedal", type="stop", **pedal_kwargs)
+        if direction.staff is not None and direction.staff != 1:
+            e3e = etree.SubElement(e0e, "staff")
+            e3e.text = str(direction.staff)
+        result.append((direction.end.t, None, e0e))
+
     tempos = part.iter_all(score.Tempo, start, end)
     directions = part.iter_all(score.Direction, start, end, include_subclasses=True)
 
@@ -787,7 +811,9 @@ def do_directions(part, start, end, counter):
                     e3s.text = str(direction.staff)
                 elem = (direction.start.t, None, e0s)
                 result.append(elem)
-            if ped_end.t <= end.t:
+            # (a pedal with an end is closed where it ends, see above; an
+            # open pedal is closed at the end of the segment)
+            if direction.end is None:
                 e0e = etree.Element("direction", placement="below")
                 e1e = etree.SubElement(e0e, "direction-type")
                 if isinstance(direction, score.SustainPedalDirection):
